@@ -43,7 +43,7 @@ def one(name, registered, slot):
     meta['detected_by'] = sorted(c for c, v in results.items() if v['exit'] == 1)
     json.dump(meta, open(mp, 'w'), indent=1)
     return (name, meta['property'], ', '.join('%s:%s' % (c, 'caught' if v['exit'] == 1 else 'MISSED(exit %d)' % v['exit']) for c, v in sorted(results.items())) or 'no registered check yet',
-            results.get(meta['property'], {}).get('first', ''))
+            results.get(meta['property'], {}).get('first', '') or meta.get('note', ''))
 
 def main():
     args = sys.argv[1:]
@@ -75,7 +75,7 @@ def main():
         res = meta.get('detection', {})
         rows.append((n, meta['property'], 'neutralised by a later fix' if meta.get('status', '').startswith('neutralised') else
                      (', '.join('%s:%s' % (c, 'caught' if v['exit'] == 1 else 'MISSED(exit %d)' % v['exit']) for c, v in sorted(res.items())) or 'not run yet'),
-                     res.get(meta['property'], {}).get('first', '')))
+                     res.get(meta['property'], {}).get('first', '') or meta.get('note', '')))
     with open(os.path.join(VERIF, 'seeded', 'MATRIX.md'), 'w') as f:
         f.write('# Seeded property-breaking changes vs. checks (quick tier)\n\nEach change was written by an independent sub-agent from the property text only, '
                 'confirmed in a scratch worktree (demo passes on the pristine tree, fails with the change, repository tests unchanged) and is applied only to a scratch worktree for the duration of a run.\n\n')
